@@ -1,5 +1,6 @@
 """C03 - Signatures verify iff genuinely produced by the private key (ECDSA, Ed25519, RSA-SSA-PKCS1, RSA-SSA-PSS)."""
 import concurrent.futures as cf
+import glob
 import json
 import os
 
@@ -66,16 +67,19 @@ SELFSPEC = {TRACE: wycheproof_events}
 
 # ---------------------------------------------------------------------------------- the check
 def corrupt(ev, rng):
-    """Negative control: flip Tink's recorded verdict, or damage a recorded Tink signature."""
+    """Negative control: flip Tink's recorded verdict, or damage a signature that was recorded as accepted /
+    as produced by Tink (the reference must notice that the bytes no longer verify)."""
     ev = dict(ev)
-    if ev["ev"] == "verify" and not ev["panic"]:
-        ev["ok"] = not ev["ok"]
-        ev["_corrupted"] = "ok"
-        return ev
-    if ev["ev"] == "sign" and ev["sig"] and not ev["err"]:
+    damage = (ev["ev"] == "sign" and ev["sig"] and not ev["err"]) or \
+             (ev["ev"] == "verify" and ev["ok"] and not ev["panic"] and rng.random() < 0.7)
+    if damage:
         i = rng.randrange(len(ev["sig"]))
         ev["sig"] = ev["sig"][:i] + ("0" if ev["sig"][i] != "0" else "1") + ev["sig"][i + 1:]
         ev["_corrupted"] = "sig"
+        return ev
+    if ev["ev"] == "verify" and not ev["panic"] and rng.random() < 0.05:
+        ev["ok"] = not ev["ok"]
+        ev["_corrupted"] = "ok"
         return ev
     return None
 
@@ -87,15 +91,17 @@ def kind_class(kind):
 
 
 def signature_of(e, bad):
-    """Call site + input class, stable across seeds. Hash/curve/variant are part of it, except for the
-    RSA-SSA-PSS salt-length-0 class, whose behaviour does not depend on them (one finding, three faces)."""
-    if e.get("alg") == "RSA_PSS" and e.get("saltLen") == 0:
+    """Call site + input class, stable across seeds. Hash/curve/variant are part of it, except for the one
+    RSA-SSA-PSS salt-length-0 class (KNOWN_FINDINGS), which does not depend on them. That class is recognised by
+    the specification's own diagnosis (Trace_Sig.PSSDiag: the signature IS a valid RSASSA-PSS signature, for
+    another salt length than the key's 0), so nothing else can hide behind it."""
+    diag = bad[2] if len(bad) > 2 else ""
+    if e.get("alg") == "RSA_PSS" and e.get("saltLen") == 0 and diag.startswith("valid RSASSA-PSS signature for salt length"):
         if e["ev"] == "sign":
             return "factory/RSA_PSS/saltLen=0 Sign: signature does not verify with the declared salt length"
-        if e.get("origin") == "tink" and e.get("kind") in ("exact", "rsa-minimal"):
+        if e.get("origin") == "tink":
             return "factory/RSA_PSS/saltLen=0 Verify: accepts Tink's own signature that carries a non-empty salt"
-        if e.get("origin") == "ref" and e.get("kind", "").startswith("salt-"):
-            return "factory/RSA_PSS/saltLen=0 Verify: accepts reference signatures of any salt length"
+        return "factory/RSA_PSS/saltLen=0 Verify: accepts reference signatures of any salt length"
     params = "/".join(str(x) for x in (e.get("curve"), e.get("hash"), e.get("enc")) if x)
     if e.get("alg") == "RSA_PSS":
         params += "/salt%s" % e.get("saltLen")
@@ -113,7 +119,7 @@ def report(ctx, mism):
         what = "%s: %s %s %s %s id=%s kind=%s:%s (spec expected %s)" % (
             m["bad"][0], e.get("alg"), "/".join(str(x) for x in (e.get("curve"), e.get("hash"), e.get("enc")) if x),
             ("saltLen=%s" % e.get("saltLen")) if e.get("alg") == "RSA_PSS" else "", e.get("variant"), e.get("id"),
-            e.get("origin"), e.get("kind"), m["bad"][1:])
+            e.get("origin"), e.get("kind"), [x for x in m["bad"][1:] if x])
         ctx.violation(signature_of(e, m["bad"]), what, dict(event=e, spec_says=m["bad"]))
 
 
@@ -126,7 +132,7 @@ def reference_sign(ctx, req, ans, shards):
     def work(i):
         rq, out = "%s.%d" % (req, i), "%s.%d" % (ans, i)
         open(rq, "w").write("\n".join(parts[i]) + "\n")
-        r = ctx.tlc("Plan_Sig", env=dict(VERIF_REQ=rq, VERIF_OUT=out), workers=1, timeout=1800)
+        r = ctx.tlc("Plan_Sig", env=dict(VERIF_REQ=rq, VERIF_OUT=out), workers=1, timeout=7200)
         if not r.ok or not os.path.exists(out):
             raise vlib.Infra("reference signer (Plan_Sig) failed: %s" % (r.error or r.out[-1500:]))
         return open(out).read()
@@ -150,7 +156,10 @@ def run(ctx):
         "mutation set (message edits, signature bit flips, truncations/extensions, prefix edits, other key, other message, r/s "
         "values 0,1,n-1,n,r+n,n-s, swapped encodings, ~45 DER re-encodings, P1363 length edits, Ed25519 S+kL, RSA s+n / n-s / "
         "leading zero, malformed EMSA-PKCS1/EMSA-PSS encodings signed with the real private exponent, other hash / MGF / salt "
-        "length / variant / scheme); every event judged by TLC against TinkSig.tla")
+        "length / variant / scheme); for ECDSA/DER additionally every re-encoding shape of lib/DERShapes.tla with <= 2 deviations "
+        "(thorough: the full 75k product per curve) generated by TLC from a reference signature; plus the (key, message, "
+        "signature) triples of the Wycheproof files as further inputs (expected results unused); every event judged by TLC "
+        "against TinkSig.tla. MC_DER: exhaustive check of the strict DER parser against the encoder on shapes x boundary values")
     ctx.assumptions += [
         "big-integer and elliptic-curve arithmetic (u1*G+u2*Q, modular inverse, RSA exponentiation), SHA-2 and the Ed25519 core are "
         "the JDK's (java.math.BigInteger, SunEC Ed25519, SUN MessageDigest), independent of Go's standard library",
@@ -158,6 +167,9 @@ def run(ctx):
         "over BigInteger primitives and the provider is a cross-checked second opinion",
         "rejection of forgeries is checked on enumerated mutations of valid signatures, not on all byte strings",
     ]
+    if os.environ.get("VERIF_C03_ONLY"):
+        ctx.log("NOTE: VERIF_C03_ONLY=%s restricts the run to one algorithm family (debugging aid; not evidence)" % os.environ["VERIF_C03_ONLY"])
+        ctx.assumptions.append("RESTRICTED RUN (VERIF_C03_ONLY=%s): not evidence" % os.environ["VERIF_C03_ONLY"])
     drv = ctx.go_build("c03")
     trace = ctx.scratch + "/c03.ndjson"
     if ctx.replay:   # re-execute exactly the recorded call against the current tree and re-judge it
@@ -165,13 +177,19 @@ def run(ctx):
         mism, n = ctx.validate_events(TRACE, trace)
         report(ctx, mism)
         return
+    # (M) the strict DER parser against the encoder on the re-encoding shapes x boundary integer values (exhaustive)
+    ctx.model_check("MC_DER", "MC_DER_full" if ctx.thorough else "MC_DER", stage="M:MC_DER", must_cover=False,
+                    workers=8 if ctx.thorough else 2, heap="6g", timeout=7200)
     keys, req, ans = ctx.scratch + "/keys.json", ctx.scratch + "/req.ndjson", ctx.scratch + "/ans.ndjson"
     r = ctx.run([drv, "-mode", "plan", "-keys", keys, "-req", req])
     ctx.log("plan:", r.stdout.strip())
     n = reference_sign(ctx, req, ans, 16 if ctx.thorough else 8)
     ctx.stage("R:Plan_Sig", reference_signatures=n)
     ctx.log("reference signer: %d signatures" % n)
-    r = ctx.run([drv, "-mode", "run", "-keys", keys, "-ans", ans, "-out", trace])
+    wy = sorted(glob.glob("/root/go/pkg/mod/github.com/c2sp/wycheproof@*/testvectors_v1"))
+    if not wy:
+        raise vlib.Infra("Wycheproof vectors (input source for edge-case keys/signatures) not found in the module cache")
+    r = ctx.run([drv, "-mode", "run", "-keys", keys, "-ans", ans, "-out", trace, "-wy", wy[-1]], timeout=3000)
     ctx.log("driver:", r.stdout.strip())
     # events are independent: deal them round-robin over the shards so that the expensive ones (P-384/P-521 curve
     # arithmetic, 4096-bit RSA) do not all land in the same TLC process
@@ -179,20 +197,34 @@ def run(ctx):
     shards = 16
     dealt = [ln for i in range(shards) for ln in lines[i::shards]]
     open(trace + ".dealt", "w").write("\n".join(dealt) + "\n")
-    mism, n = ctx.validate_events(TRACE, trace + ".dealt", shards=shards, timeout=2400)
+    # max_findings: never stop judging a shard early (the known salt-length-0 findings alone are ~10 per such key)
+    mism, n = ctx.validate_events(TRACE, trace + ".dealt", shards=shards, timeout=14400 if ctx.thorough else 3000,
+                                  max_findings=100000)
     ctx.cov["traces_validated_against_impl"] += 1
     ctx.cov["events"] = n
     by_kind = {}
     for ln in lines:
         e = json.loads(ln)
+        if e["ev"] == "construct":   # coverage expectations (DESIGN section 4): exit 2, never a verdict
+            if e["kind"].startswith("unit:"):
+                raise vlib.Infra("the library refused a configuration the plan expects to be usable (model out of date): %s" % ln[:600])
+            if e["kind"].startswith("refused:") and not e["err"]:
+                raise vlib.Infra("the library accepted a configuration the plan expects to be refused (model out of date): %s" % ln[:600])
         k = "%s %s %s" % (e["alg"], e["ev"], e.get("origin", ""))
         by_kind[k] = by_kind.get(k, 0) + 1
     ctx.stage("T:" + TRACE, by_kind=by_kind)
     for k in (7, len(lines) // 3, len(lines) // 2, len(lines) - 3):
         ctx.sample(json.loads(lines[k]))
     report(ctx, mism)
-    if not mism:
-        ctx.negative_control(TRACE, trace, corrupt)
+    if not ctx.violations:
+        # negative control on the events that conform (known findings, if any, are left out of the window)
+        badl = set(json.dumps(m["event"], sort_keys=True) for m in mism)
+        nc = trace + ".nc"
+        with open(nc, "w") as f:
+            for ln in lines:
+                if not badl or json.dumps(json.loads(ln), sort_keys=True) not in badl:
+                    f.write(ln + "\n")
+        ctx.negative_control(TRACE, nc, corrupt)
 
 
 MANIFEST = dict(
